@@ -2,6 +2,7 @@ package checks
 
 import (
 	"bytes"
+	"encoding/json"
 	"fmt"
 	"sort"
 	"testing"
@@ -16,6 +17,7 @@ import (
 	"verifharness/drive"
 	"verifharness/gen"
 	"verifharness/spec"
+	"verifharness/stats"
 )
 
 // C08 — dictionary enumeration returns exactly the accepted terms with true counts.
@@ -555,4 +557,96 @@ func TestC08(t *testing.T) {
 	drive.CheckDictCounts = true
 	defer func() { drive.CheckDictCounts = false }()
 	c08.Rapid(t)
+}
+
+// dictAgainstModel enumerates every field's dictionary without automaton or range and compares
+// the (term, count) list with the model.
+func dictAgainstModel(prop string, seg segment.Segment, want *spec.Obs, tag string) *Violation {
+	var v *Violation
+	err := drive.Safe(func() error {
+		for f, terms := range want.Index {
+			var sorted []string
+			for t := range terms {
+				sorted = append(sorted, t)
+			}
+			sort.Strings(sorted)
+			d, err := seg.Dictionary(f)
+			if err != nil {
+				return err
+			}
+			itr := d.AutomatonIterator(nil, nil, nil)
+			i := 0
+			for {
+				e, err := itr.Next()
+				if err != nil {
+					return err
+				}
+				if e == nil {
+					break
+				}
+				if i >= len(sorted) || e.Term != sorted[i] {
+					v = violation(prop, "dict/term-set", "%s: field %q entry %d is %q, model terms %q", tag, f, i, e.Term, sorted)
+					return nil
+				}
+				if e.Count != uint64(len(terms[e.Term])) {
+					v = violation(prop, "dict/count", "%s: field %q term %q reported with count %d, model %d documents", tag, f, e.Term, e.Count, len(terms[e.Term]))
+					return nil
+				}
+				i++
+			}
+			if i != len(sorted) {
+				v = violation(prop, "dict/term-set", "%s: field %q enumerates %d terms, model %d", tag, f, i, len(sorted))
+				return nil
+			}
+		}
+		return nil
+	})
+	if err != nil {
+		return violation(prop, "dict/error", "%s: %v", tag, err)
+	}
+	return v
+}
+
+// Deterministic scenarios: dictionaries of segments merged two and three times (the later merges
+// copy posting details byte-wise), with terms of more than 1024 documents next to sparse ones.
+func runDictRemerge(cs planCase) *Violation {
+	var res *drive.PlanResult
+	if err := drive.Safe(func() error {
+		var e error
+		res, e = drive.RunPlan(cs.Plan)
+		return e
+	}); err != nil {
+		return violation("C08", "provenance/error", "%v", err)
+	}
+	defer res.Close()
+	for ni, node := range res.Nodes {
+		want := spec.ExpectResolved(spec.Resolve(node.Plan))
+		if v := dictAgainstModel("C08", node.Seg, want, fmt.Sprintf("merge generation %d", ni+1)); v != nil {
+			return v
+		}
+	}
+	return nil
+}
+
+func init() {
+	registry["C08/dictionary-remerge"] = func(raw json.RawMessage) *Violation {
+		var cs planCase
+		if err := json.Unmarshal(raw, &cs); err != nil {
+			return violation("C08", "replay/bad-case-file", "%v", err)
+		}
+		return runDictRemerge(cs)
+	}
+}
+
+func TestC08Fixed(t *testing.T) {
+	col := stats.New("C08", "dictionary-remerge")
+	defer col.Write()
+	for _, c := range c06FixedPlans() {
+		if len(c.Plan.Children) != 1 {
+			continue // only the re-merged variants
+		}
+		cs := planCase{Plan: &spec.MergePlan{ChunkMode: c.Plan.ChunkMode, Children: []spec.MergePlan{*c.Plan}, Drops: []spec.DropSpec{{Nil: true}}}}
+		col.CaseHash(stats.HashJSON(cs), true, []string{"merged-three-times", "list>1024"}, func() any { return sampleOf(cs) })
+		reportBig(t, col, "C08", "dictionary-remerge", cs, runDictRemerge(cs))
+	}
 }
